@@ -8,6 +8,7 @@
 //! by an own damped Newton solve (a case is a violation only if both disagree).
 
 mod binary;
+mod layout;
 mod multi;
 mod refopt;
 mod tweedie;
@@ -44,6 +45,24 @@ impl Out {
     pub fn tag(&mut self, t: &'static str) {
         self.tags.push(t);
     }
+}
+
+pub fn std_layout() -> String {
+    "standard".to_string()
+}
+pub fn f64_name() -> String {
+    "f64".to_string()
+}
+
+/// A violation that the standard-layout run of the same case does not show: `<model>.<call>.layout_dependence`.
+pub fn as_layout_dependence(v: Violation, fit_layout: &str, query_layout: &str) -> Violation {
+    let mut parts = v.sig.split('.');
+    let head: Vec<&str> = vec![parts.next().unwrap_or("c12"), parts.next().unwrap_or("call")];
+    Violation::new(
+        format!("{}.{}.layout_dependence", head[0], head[1]),
+        format!("the standard-layout run of this case passes every check; with records layout '{}' / query layout '{}': [{}] {}", fit_layout, query_layout, v.sig, v.what),
+        v.case,
+    )
 }
 
 fn run_case(case: &Case, viols: &mut Vec<Violation>) -> Out {
@@ -284,6 +303,7 @@ fn main() {
                                 retry_max_iter: RETRY_MAX_ITER,
                                 order: oname.to_string(),
                                 scale,
+                                n_rows: None, fit_layout: std_layout(), query_layout: std_layout(), float: f64_name(),
                             });
                             let mut v = Vec::new();
                             let o = run_case(&case, &mut v);
@@ -371,6 +391,7 @@ fn main() {
                             retry_max_iter: RETRY_MAX_ITER,
                             order: oname.to_string(),
                             scale,
+                            n_rows: None, fit_layout: std_layout(), query_layout: std_layout(), float: f64_name(),
                         });
                         let mut v = Vec::new();
                         let o = run_case(&case, &mut v);
@@ -425,7 +446,7 @@ fn main() {
                 for (fam, pts, y) in targets {
                     for &alpha in &tw_alphas {
                         for intercept in [true, false] {
-                            tcases.push(Case::Tweedie(TwCase { family: fam.to_string(), x: pts.clone(), y: y.clone(), power: p, link: link.to_string(), alpha, intercept, tol: GTOL, max_iter: TW_MAX_ITER }));
+                            tcases.push(Case::Tweedie(TwCase { family: fam.to_string(), x: pts.clone(), y: y.clone(), power: p, link: link.to_string(), alpha, intercept, tol: GTOL, max_iter: TW_MAX_ITER, n_rows: None, fit_layout: std_layout(), query_layout: std_layout(), float: f64_name() }));
                         }
                     }
                 }
@@ -445,7 +466,7 @@ fn main() {
                                 let mut y: Vec<f64> = (0..pts.len()).map(|i| if link == "logit" { 0.25 + 0.125 * i as f64 } else { 0.5 + i as f64 }).collect();
                                 y[pos] = bad;
                                 n_range += 1;
-                                tcases.push(Case::Tweedie(TwCase { family: fam.to_string(), x: pts.clone(), y, power: p, link: link.to_string(), alpha: 0.1, intercept, tol: GTOL, max_iter: TW_MAX_ITER }));
+                                tcases.push(Case::Tweedie(TwCase { family: fam.to_string(), x: pts.clone(), y, power: p, link: link.to_string(), alpha: 0.1, intercept, tol: GTOL, max_iter: TW_MAX_ITER, n_rows: None, fit_layout: std_layout(), query_layout: std_layout(), float: f64_name() }));
                             }
                         }
                     }
@@ -472,8 +493,288 @@ fn main() {
         ctx.sample(|| serde_json::to_value(case).unwrap());
         merge(&tally, local);
     });
+    let tw_done_pre = tally.lock().unwrap().cases - bin_done - multi_done;
+
+    // ------------------------------------------------------------------ hardening families:
+    // (a) memory layouts of the records for fit / predict / predict_probabilities, (b) replicated lattices with
+    // n in {1025, 4097} rows, (c) f32. Same runners, same oracles; only the enumerated space is wider.
+    let mut hcases: Vec<Case> = Vec::new();
+    let (mut n_layout, mut n_large, mut n_f32) = (0u64, 0u64, 0u64);
+    let lat6: Vec<(&'static str, Vec<Vec<f64>>)> = vec![
+        ("1d", (0..6).map(|i| vec![i as f64]).collect()),
+        ("1d_doubled", (0..6).map(|i| vec![(i / 2) as f64]).collect()),
+        ("2d", (0..6).map(|i| vec![(i / 2) as f64, (i % 2) as f64]).collect()),
+    ];
+    let mk_bin = |fam: &str, pts: &Vec<Vec<f64>>, mask: u32, scale: f64, alpha: f64, intercept: bool| BinCase {
+        family: fam.to_string(),
+        x: pts.iter().map(|r| r.iter().map(|v| v * scale).collect()).collect(),
+        groups: (0..pts.len()).map(|i| ((mask >> i) & 1) as u8).collect(),
+        label_type: "usize".into(),
+        naming: 1,
+        alpha,
+        intercept,
+        init: None,
+        gtol: GTOL,
+        max_iter: MAX_ITER,
+        retry_max_iter: RETRY_MAX_ITER,
+        order: "identity".into(),
+        scale,
+        n_rows: None,
+        fit_layout: std_layout(),
+        query_layout: std_layout(),
+        float: f64_name(),
+    };
+    let mk_multi = |fam: &str, pts: &Vec<Vec<f64>>, part: &Vec<u8>, k: usize, scale: f64, alpha: f64, intercept: bool| MultiCase {
+        family: fam.to_string(),
+        x: pts.iter().map(|r| r.iter().map(|v| v * scale).collect()).collect(),
+        groups: part.clone(),
+        k,
+        label_type: "str".into(),
+        naming: 1,
+        alpha,
+        intercept,
+        init: None,
+        gtol: GTOL,
+        max_iter: MAX_ITER,
+        retry_max_iter: RETRY_MAX_ITER,
+        order: "identity".into(),
+        scale,
+        n_rows: None,
+        fit_layout: std_layout(),
+        query_layout: std_layout(),
+        float: f64_name(),
+    };
+    let tw_pairs: [(f64, &str); 5] = [(0.0, "identity"), (1.0, "log"), (1.5, "log"), (2.0, "log"), (3.0, "logit")];
+    let design_h1: Vec<Vec<f64>> = (0..5).map(|i| vec![i as f64 * 0.5]).collect();
+    let mk_tw = |fam: &str, pts: &Vec<Vec<f64>>, y: Vec<f64>, p: f64, link: &str, alpha: f64, intercept: bool| TwCase {
+        family: fam.to_string(),
+        x: pts.clone(),
+        y,
+        power: p,
+        link: link.to_string(),
+        alpha,
+        intercept,
+        tol: GTOL,
+        max_iter: TW_MAX_ITER,
+        n_rows: None,
+        fit_layout: std_layout(),
+        query_layout: std_layout(),
+        float: f64_name(),
+    };
+    let all_parts6: Vec<(usize, Vec<u8>)> = (2..=4usize).flat_map(|k| partitions(6, k).into_iter().map(move |p| (k, p))).collect();
+    let tw_targets = |p: f64, link: &str, stride: usize| -> Vec<(&'static str, Vec<Vec<f64>>, Vec<f64>)> {
+        let letters = alphabet(p, link);
+        let mut v: Vec<(&'static str, Vec<Vec<f64>>, Vec<f64>)> = Vec::new();
+        for (i, seq) in lvmc_core::enumerate::sequences(5, 3).into_iter().enumerate() {
+            if i % stride == 1 {
+                v.push(("1d", design_h1.clone(), seq.iter().map(|&i| letters[i]).collect()));
+            }
+        }
+        for (i, seq) in lvmc_core::enumerate::sequences(6, 2).into_iter().enumerate() {
+            if i % stride == 2 {
+                v.push(("2d", design2.clone(), seq.iter().map(|&i| letters[i * 2]).collect()));
+            }
+        }
+        v
+    };
+    if want("harden") {
+        let nonstd = &layout::LAYOUTS[1..];
+        // ---- (a) layouts ----
+        let mask_stride = ctx.pick(5u32, 1u32);
+        for (fam, pts) in lat6.iter().filter(|(f, _)| *f != "1d_doubled") {
+            for mask in (1..63u32).filter(|m| m % mask_stride == 1 % mask_stride) {
+                for &scale in &[1.0, 100.0] {
+                    for &alpha in &[0.0, 1.0] {
+                        for intercept in [true, false] {
+                            for l in nonstd {
+                                for both in [true, false] {
+                                    let mut c = mk_bin(fam, pts, mask, scale, alpha, intercept);
+                                    c.query_layout = l.to_string();
+                                    if both {
+                                        c.fit_layout = l.to_string();
+                                    }
+                                    hcases.push(Case::Binary(c));
+                                    n_layout += 1;
+                                }
+                            }
+                        }
+                    }
+                }
+            }
+        }
+        let part_stride = ctx.pick(13usize, 3usize);
+        for (fam, pts) in lat6.iter().filter(|(f, _)| *f != "1d_doubled") {
+            for (i, (k, part)) in all_parts6.iter().enumerate() {
+                if i % part_stride != 1 {
+                    continue;
+                }
+                for &scale in &[1.0, 100.0] {
+                    for &alpha in &[0.01, 1.0] {
+                        for intercept in [true, false] {
+                            for l in nonstd {
+                                for both in [true, false] {
+                                    let mut c = mk_multi(fam, pts, part, *k, scale, alpha, intercept);
+                                    c.query_layout = l.to_string();
+                                    if both {
+                                        c.fit_layout = l.to_string();
+                                    }
+                                    hcases.push(Case::Multi(c));
+                                    n_layout += 1;
+                                }
+                            }
+                        }
+                    }
+                }
+            }
+        }
+        let tw_stride = ctx.pick(27usize, 5usize);
+        for (p, link) in tw_pairs {
+            for (fam, pts, y) in tw_targets(p, link, tw_stride) {
+                for &alpha in &[0.0, 1.0] {
+                    for intercept in [true, false] {
+                        for l in nonstd {
+                            let mut c = mk_tw(fam, &pts, y.clone(), p, link, alpha, intercept);
+                            c.fit_layout = l.to_string();
+                            c.query_layout = l.to_string();
+                            hcases.push(Case::Tweedie(c));
+                            n_layout += 1;
+                        }
+                    }
+                }
+            }
+        }
+        // ---- (b) replicated lattices, n in {1025, 4097} ----
+        let big_masks: Vec<u32> = ctx.pick(vec![0b010110u32, 0b101001], vec![0b010110u32, 0b101001, 0b001011, 0b110100]);
+        for &nr in &[1025usize, 4097] {
+            for (fam, pts) in &lat6 {
+                for &mask in &big_masks {
+                    for &scale in &[1.0, 100.0] {
+                        for &alpha in &[0.0, 1.0] {
+                            for intercept in [true, false] {
+                                for l in ["standard", "every_second_row_view"] {
+                                    let mut c = mk_bin(fam, pts, mask, scale, alpha, intercept);
+                                    c.n_rows = Some(nr);
+                                    c.fit_layout = l.to_string();
+                                    c.query_layout = l.to_string();
+                                    hcases.push(Case::Binary(c));
+                                    n_large += 1;
+                                }
+                            }
+                        }
+                    }
+                }
+            }
+            let big_parts: Vec<(usize, Vec<u8>)> = vec![(3, vec![0, 1, 2, 0, 1, 2]), (4, vec![0, 0, 1, 1, 2, 3]), (2, vec![0, 1, 0, 1, 0, 1])];
+            for (fam, pts) in lat6.iter().filter(|(f, _)| *f != "1d_doubled") {
+                for (k, part) in &big_parts {
+                    for &scale in &[1.0, 100.0] {
+                        for &alpha in &[0.01, 1.0] {
+                            for intercept in [true, false] {
+                                for l in ["standard", "fortran"] {
+                                    if ctx.quick() && l == "fortran" && nr == 4097 {
+                                        continue;
+                                    }
+                                    let mut c = mk_multi(fam, pts, part, *k, scale, alpha, intercept);
+                                    c.n_rows = Some(nr);
+                                    c.fit_layout = l.to_string();
+                                    c.query_layout = l.to_string();
+                                    hcases.push(Case::Multi(c));
+                                    n_large += 1;
+                                }
+                            }
+                        }
+                    }
+                }
+            }
+            for (p, link) in tw_pairs {
+                for (fam, pts, y) in tw_targets(p, link, 81) {
+                    for &alpha in &[0.0, 1.0] {
+                        for intercept in [true, false] {
+                            for l in ["standard", "transposed_view"] {
+                                let mut c = mk_tw(fam, &pts, y.clone(), p, link, alpha, intercept);
+                                c.n_rows = Some(nr);
+                                c.fit_layout = l.to_string();
+                                c.query_layout = l.to_string();
+                                hcases.push(Case::Tweedie(c));
+                                n_large += 1;
+                            }
+                        }
+                    }
+                }
+            }
+        }
+        // ---- (c) f32 (scale 1) ----
+        for (fam, pts) in lat6.iter().filter(|(f, _)| *f != "1d_doubled") {
+            for mask in 1..63u32 {
+                for &alpha in &[0.0, 0.01, 1.0] {
+                    for intercept in [true, false] {
+                        let mut c = mk_bin(fam, pts, mask, 1.0, alpha, intercept);
+                        c.float = "f32".into();
+                        hcases.push(Case::Binary(c));
+                        n_f32 += 1;
+                    }
+                }
+            }
+            for (i, (k, part)) in all_parts6.iter().enumerate() {
+                if i % ctx.pick(5usize, 1usize) != 1 % ctx.pick(5usize, 1usize) {
+                    continue;
+                }
+                for &alpha in &[0.01, 1.0] {
+                    for intercept in [true, false] {
+                        let mut c = mk_multi(fam, pts, part, *k, 1.0, alpha, intercept);
+                        c.float = "f32".into();
+                        hcases.push(Case::Multi(c));
+                        n_f32 += 1;
+                    }
+                }
+            }
+        }
+        for (p, link) in tw_pairs {
+            for (fam, pts, y) in tw_targets(p, link, ctx.pick(27usize, 5usize)) {
+                for &alpha in &[0.0, 1.0] {
+                    for intercept in [true, false] {
+                        let mut c = mk_tw(fam, &pts, y.clone(), p, link, alpha, intercept);
+                        c.float = "f32".into();
+                        hcases.push(Case::Tweedie(c));
+                        n_f32 += 1;
+                    }
+                }
+            }
+        }
+    }
+    // deterministic interleaving, as for the Tweedie sweep (large and small cases mixed over the threads)
+    {
+        let n = hcases.len();
+        if n > 1 {
+            let mut stride = 7919 % n;
+            while gcd(stride.max(1), n) != 1 {
+                stride += 1;
+            }
+            hcases = (0..n).map(|i| hcases[(i * stride.max(1)) % n].clone()).collect();
+        }
+    }
+    let trace = std::env::var("C12_TRACE").is_ok();
+    par_sweep(&ctx, "hardening families", &hcases, |case| {
+        let mut local = Tally::default();
+        let mut v = Vec::new();
+        if trace {
+            eprintln!("BEGIN {}", serde_json::to_string(case).unwrap());
+        }
+        let o = run_case(case, &mut v);
+        if trace {
+            eprintln!("END {}", serde_json::to_string(case).unwrap());
+        }
+        record(&ctx, &mut local, o, v);
+        ctx.sample(|| serde_json::to_value(case).unwrap());
+        merge(&tally, local);
+    });
+    let hard_done = tally.lock().unwrap().cases - bin_done - multi_done - tw_done_pre;
+    ctx.extra("hardening_layout_cases_enumerated", json!(n_layout));
+    ctx.extra("hardening_large_n_cases_enumerated", json!(n_large));
+    ctx.extra("hardening_f32_cases_enumerated", json!(n_f32));
+    ctx.extra("hardening_cases_run", json!(hard_done));
     let t = tally.lock().unwrap();
-    let tw_done = t.cases - bin_done - multi_done;
+    let tw_done = tw_done_pre;
     ctx.extra("tweedie_target_vectors", json!(n_targets));
     ctx.extra("tweedie_isolated_fit_largest_cpu_ms_of_a_returning_child", json!(tweedie::MAX_CHILD_MS.load(std::sync::atomic::Ordering::Relaxed)));
     ctx.extra("all_sweeps_wall_s", json!((ctx.elapsed() * 10.0).round() / 10.0));
@@ -486,7 +787,7 @@ fn main() {
     for (k, v) in &t.tags {
         ctx.extra(k, json!(v));
     }
-    if bin_done != bin_expected || multi_done != multi_expected || tw_done != tcases.len() as u64 {
+    if bin_done != bin_expected || multi_done != multi_expected || tw_done != tcases.len() as u64 || hard_done != hcases.len() as u64 {
         ctx.capped(&format!("cases run {} + {} + {} != enumerated {} + {} + {}", bin_done, multi_done, tw_done, bin_expected, multi_expected, tcases.len()));
     }
     drop(t);
